@@ -116,11 +116,16 @@ func runC04(c *vh.Ctx) {
 			unf, fol, stable := evalPolicyBoth(p, env.Env)
 			c.Res.OracleChecks++
 			payload := map[string]any{"policy": vh.EncPolicy(p), "envref": b.EnvRef(env)}
-			if stable && vh.PolicyOrderSensitive(p, env.Env) {
-				stable = false // record literal with two differently failing entries (C14 finding): no single result
-			}
 			if !stable {
+				// three evaluations of the same (policy, environment) must agree (see c01.go: the record-literal
+				// multi-error cases that used to be stepped around here are deterministic since the repair)
 				c.Dist("impl-nondeterministic")
+				cls := "impl-nondeterministic"
+				if vh.PolicyOrderSensitive(p, env.Env) {
+					cls = "record-literal-multi-error-order"
+				}
+				c.Report(vh.Finding{Class: cls, What: fmt.Sprintf("repeated evaluation of the same policy in the same environment gave different results (first: unfolded %q, folded %q)", unf, fol),
+					Check: "oracle", Op: "policy-eval", Input: payload})
 			} else {
 				if unf != fol {
 					c.Report(vh.Finding{Class: "fold-changes-meaning", What: fmt.Sprintf("folded evaluation %q differs from unfolded %q", fol, unf), Check: "oracle", Op: "policy-eval", Input: payload, Expected: unf, Actual: fol})
